@@ -7,8 +7,8 @@ package main
 
 import (
 	"go/types"
-	"strings"
 	"net/textproto"
+	"strings"
 )
 
 func structFieldIndex(t types.Type, name string) int {
